@@ -596,10 +596,9 @@ class Program:
                     yield f.build()
 
     def struct(self, name, unit=None):
+        # layout always from the unit that uses the type (anonymous types differ between units)
         if unit is not None and name in unit.structs and not unit.structs[name].get("opaque"):
-            s = unit.structs[name]
-            if any(e.get("n") for e in s["elems"]):
-                return s
+            return unit.structs[name]
         return self._structs.get(name) or self._structs.get(strip_suffix(name))
 
     def field_name(self, sname, idx, unit=None):
@@ -607,9 +606,16 @@ class Program:
         if s is None:
             return "#%d" % idx
         try:
-            return s["elems"][idx].get("n") or "#%d" % idx
+            n = s["elems"][idx].get("n")
         except IndexError:
             return "#%d" % idx
+        if n:
+            return n
+        g = self._structs.get(sname) or self._structs.get(strip_suffix(sname))
+        if g is not None and g is not s and len(g["elems"]) == len(s["elems"]) and \
+                all(a["off"] == b["off"] for a, b in zip(g["elems"], s["elems"])):
+            return g["elems"][idx].get("n") or "#%d" % idx
+        return "#%d" % idx
 
     def field_index(self, sname, fname):
         s = self.struct(sname)
